@@ -2,6 +2,7 @@ import Pandora.Drv.Util
 import Pandora.Spec.C20
 import Pandora.Model.C20Net
 import Pandora.Model.C20Feed
+import Pandora.Model.C20Pool
 
 namespace Pandora.Drv.C20
 open Pandora.Drv Pandora.Model.C20 Pandora.Model.C20Conc Pandora.Spec.C20
@@ -84,7 +85,9 @@ def parseCall (c : String) : CallDef :=
       (dec k, kind, parseTmpl (dec body)),
     pre := (parsePre (nth p 4)).1,
     idx := (parsePre (nth p 4)).2,
-    assert := if (nth p 5).startsWith "a" then (String.ofList ((nth p 5).toList.drop 1)).toNat?.getD 0 else 0 }
+    assert := if (nth p 5).startsWith "a" then (String.ofList ((nth p 5).toList.drop 1)).toNat?.getD 0 else 0,
+    -- seventh field `T<text>`: the call's tag as written (possibly empty, possibly shared); absent: `t<name>`
+    tag := if (nth p 6).startsWith "T" then dec (String.ofList ((nth p 6).toList.drop 1)) else "t" ++ nth p 0 }
 
 /-- `sleep<ms>`: the scenario's `sleep(ms)` pseudo request — time only, nothing on the wire -/
 def isSleep (r : String) : Bool :=
@@ -172,7 +175,12 @@ def handleCore : Handler := fun input impl =>
     | some raws =>
     -- model: the provider's reading loop (passes, limit, chosen cases, continueonerror), every line decoded into a pooled
     -- object that still holds the previously delivered ammo
-    let (es, stop) := feed cfg raws
+    -- `dirty=<k>`: the pool already holds used objects (rich earlier entries, every other one flagged invalid): the loop over
+    -- pooled OBJECTS with that oracle (`C20_pool_oracle`: the oracle makes no difference)
+    let (es, stop) := if (getN? kv "dirty").getD 0 > 0 then
+        let r := feedO cfg dirtyObj raws
+        (r.1.map (·.e), r.2)
+      else feed cfg raws
     if hasOther es || hasOddNumeric es then ("-", "skip:unmodelled-value") else
     if hasDupKeys es then ("-", "skip:duplicate-keys") else
     let tmo := parseTmo kv
